@@ -1145,12 +1145,27 @@ def _check_ladder_order_by_rungs(ck, rule, fa: FA, ladder, pairs, label):
     return n
 
 
-def handler_ladder(try_node):
+def handler_type_names(h, consts=None):
+    """Names of the exception classes a handler catches ([] for a bare except); a module-level name bound to a tuple of
+    classes (also nested / concatenated tuples) is looked through."""
+    consts = consts or {}
+
+    def names(t, depth=0):
+        if depth > 4:
+            return [A.norm(t)]
+        if isinstance(t, (ast.Tuple, ast.List)):
+            return [n for x in t.elts for n in names(x, depth + 1)]
+        if isinstance(t, ast.BinOp) and isinstance(t.op, ast.Add):
+            return names(t.left, depth + 1) + names(t.right, depth + 1)
+        if isinstance(t, ast.Name) and isinstance(consts.get(t.id), (ast.Tuple, ast.List, ast.BinOp)):
+            return names(consts[t.id], depth + 1)
+        return [A.norm(t)]
+
+    return [] if h.type is None else names(h.type)
+
+
+def handler_ladder(try_node, consts=None):
     out = []
     for h in try_node.handlers:
-        if h.type is None:
-            out.append((["BaseException"], _outcome(h.body), h))
-        else:
-            ts = h.type.elts if isinstance(h.type, ast.Tuple) else [h.type]
-            out.append(([A.norm(t) for t in ts], _outcome(h.body), h))
+        out.append((handler_type_names(h, consts) or ["BaseException"], _outcome(h.body), h))
     return out
